@@ -1,6 +1,9 @@
 (* Property C06 — theorems only. Each is closed by [exact] and followed by Print Assumptions.
    Model: coq/C06/Args.v (DefinitionInfo / CallInfo / ArgumentMapping / the changers of
    change_signature.py / to_call_info, and the specification [bind] of Python's call binding).
+   [kwfix] selects the variant of the call parser: true = the current code (091d633: a call containing
+   **mapping is read, the mapping carried through), false = the code as first found (AssertionError on
+   such a call, a fixed defect); the text-level theorems hold for both.
    [rdel] selects the variant of ArgumentRemover.change_argument_mapping: the current code is
    rdel = true (26a80fc); every theorem quantified over rdel holds for both variants.  With rdel = true
    side_ok additionally asks for distinct parameter names in every intermediate definition. *)
@@ -43,22 +46,22 @@ Print Assumptions C06_preserve_nonvacuous.
    definition, binds every surviving parameter to the same expression. recv_ok: the receiver
    parameter stays first. *)
 Theorem C06_preserve_text :
-  forall rdel d cs implicit ctor r c d' c' r' b,
-    call_read d implicit ctor r = Some c ->
+  forall rdel kwfix d cs implicit ctor r c d' c' r' b,
+    call_read kwfix d implicit ctor r = Some c ->
     apply_defs cs d = Some d' -> change_call rdel cs d c = Some c' -> call_render c' = Some r' ->
     side_ok rdel d cs c d' = true -> recv_ok d c d' = true -> bind d c = Some b ->
-    exists c2 b', call_read d' implicit ctor r' = Some c2 /\ bind d' c2 = Some b'
+    exists c2 b', call_read kwfix d' implicit ctor r' = Some c2 /\ bind d' c2 = Some b'
       /\ (forall n, In n (names d) -> In n (names d') -> lookup n b' = lookup n b)
       /\ b_star b' = b_star b /\ b_kw b' = b_kw b /\ map fst (b_params b') = names d'.
 Proof. exact preserve_text. Qed.
 Print Assumptions C06_preserve_text.
 
-Example C06_preserve_text_nonvacuous : forall rdel,
+Example C06_preserve_text_nonvacuous : forall rdel kwfix,
   exists d cs r c d' c' r' b,
     d = mkDef [(1, None); (2, None); (3, Some 10)]%N None (Some 8%N)
     /\ cs = [Reorder [0; 2; 1] (Some 11%N); InlineDefault 1 true]
     /\ r = mkRend None 20%N [31]%N [(9, 32)]%N None None
-    /\ call_read d false true r = Some c
+    /\ call_read kwfix d false true r = Some c
     /\ apply_defs cs d = Some d' /\ change_call rdel cs d c = Some c' /\ call_render c' = Some r'
     /\ side_ok rdel d cs c d' = true /\ recv_ok d c d' = true /\ bind d c = Some b
     /\ r' = mkRend None 20%N [10; 31]%N [(9, 32)]%N None None.
@@ -248,37 +251,37 @@ Print Assumptions C06_explicit_preserved_nonvacuous.
    for it.  C06_subclass_ctor_refuted: a constructor call through a subclass that inherits __init__ is
    not reached, its text stays and its arguments reach other parameters (open finding). *)
 Theorem C06_site_preserve :
-  forall rdel is_init d cs s d' r' c b,
+  forall rdel kwfix is_init d cs s d' r' c b,
     finder_finds is_init (ps_callee s) = true ->
-    apply_defs cs d = Some d' -> change_site rdel is_init d cs s = Some r' ->
-    call_read d (ps_implicit s) (ps_ctor s) (ps_call s) = Some c ->
+    apply_defs cs d = Some d' -> change_site kwfix rdel is_init d cs s = Some r' ->
+    call_read kwfix d (ps_implicit s) (ps_ctor s) (ps_call s) = Some c ->
     side_ok rdel d cs c d' = true -> recv_ok d c d' = true -> bind d c = Some b ->
-    exists c2 b', call_read d' (ps_implicit s) (ps_ctor s) r' = Some c2 /\ bind d' c2 = Some b'
+    exists c2 b', call_read kwfix d' (ps_implicit s) (ps_ctor s) r' = Some c2 /\ bind d' c2 = Some b'
       /\ (forall n, In n (names d) -> In n (names d') -> lookup n b' = lookup n b)
       /\ b_star b' = b_star b /\ b_kw b' = b_kw b /\ map fst (b_params b') = names d'.
 Proof. exact site_preserve. Qed.
 Print Assumptions C06_site_preserve.
 
-Example C06_site_preserve_nonvacuous : forall rdel,
+Example C06_site_preserve_nonvacuous : forall rdel kwfix,
   exists d cs s d' r' c b,
     d = mkDef [(1, None); (2, None); (3, Some 10)]%N None None
     /\ cs = [Reorder [0; 2; 1] (Some 11%N)]
     /\ s = mkPsite CClass false true (mkRend None 20%N [31]%N [(3, 32)]%N None None)
     /\ finder_finds true (ps_callee s) = true
-    /\ apply_defs cs d = Some d' /\ change_site rdel true d cs s = Some r'
-    /\ call_read d (ps_implicit s) (ps_ctor s) (ps_call s) = Some c
+    /\ apply_defs cs d = Some d' /\ change_site kwfix rdel true d cs s = Some r'
+    /\ call_read kwfix d (ps_implicit s) (ps_ctor s) (ps_call s) = Some c
     /\ side_ok rdel d cs c d' = true /\ recv_ok d c d' = true /\ bind d c = Some b
     /\ r' = mkRend None 20%N [32; 31]%N [] None None.
 Proof. exact site_preserve_nonvacuous. Qed.
 Print Assumptions C06_site_preserve_nonvacuous.
 
-Theorem C06_subclass_ctor_refuted : forall rdel,
+Theorem C06_subclass_ctor_refuted : forall rdel kwfix,
   exists d cs s d' r' c c2 b b',
     s = mkPsite CSubclass false true (mkRend None 21%N [31; 32]%N [] None None)
     /\ apply_defs cs d = Some d' /\ valid_def d' = true
-    /\ change_site rdel true d cs s = Some r' /\ r' = ps_call s
-    /\ call_read d false true (ps_call s) = Some c /\ bind d c = Some b
-    /\ call_read d' false true r' = Some c2 /\ bind d' c2 = Some b'
+    /\ change_site kwfix rdel true d cs s = Some r' /\ r' = ps_call s
+    /\ call_read kwfix d false true (ps_call s) = Some c /\ bind d c = Some b
+    /\ call_read kwfix d' false true r' = Some c2 /\ bind d' c2 = Some b'
     /\ lookup 2%N b = Some 31%N /\ lookup 2%N b' = Some 32%N.
 Proof. exact subclass_ctor_refuted. Qed.
 Print Assumptions C06_subclass_ctor_refuted.
